@@ -40,6 +40,10 @@ PROFILES = [
     dict(names="adversarial", ifaces=4),
     dict(names="adversarial", **{"async": 1}, types=8, funcs=6),
 ]
+# one hand-written world per named root cause observed on the pinned tree (exhibited at every seed)
+DIRECTED = [
+    ("stdint-names", "w", "package a:b;\nworld w { import f: func(int32-t: u8, size-t: u8) -> u8; export g: func(uint8-t: u8) -> u8; }\n", ["default"]),
+]
 STUBS = os.path.join(vcommon.VERIF, "support", "c-stubs")
 
 
@@ -83,7 +87,12 @@ def run_job(job, workroot, tools, support_o):
         if not root and re.search(r"(?<![\w-])(u?int(8|16|32|64)-t|size-t)(?![\w-])", wit_text) and \
                 re.search(r"expected ';' after expression|undeclared identifier|redefinition of|expected identifier", e):
             root = "stdint-typename-as-identifier"
-        return {"status": "violation", "stage": "clang", "sig": compz.signature(job, "c:clang:", root or compz.normalise(e), closed=("stdint-typename-as-identifier",)), "what": "clang rejects the generated C: " + e,
+        if not root:
+            clash = compz.confirmed_temporary_collision(err, wit_text)
+            if clash and job["source"] == "random":
+                root = "generator-temporary-collision"
+        sig = compz.signature(job, "c:clang:", root, named=True) if root else compz.signature(job, "c:clang:", compz.normalise(e))
+        return {"status": "violation" if sig else "unclassified", "stage": "clang", "sig": sig, "what": "clang rejects the generated C: " + e,
                 "detail": err[:1500]}
     with open(os.path.join(d, hs[0])) as f:
         scraped = cscrape.scrape_header(f.read())
@@ -153,8 +162,8 @@ def run(tier, seed, replay):
             jobs, stats = compz.replay_job(replay, work, VARIANTS), {}
         else:
             n = 48 if tier == "quick" else 2000
-            jobs, stats = compz.plan("c", tier, seed, work, VARIANTS, n, PROFILES)
-        counts = {"ok": 0, "violation": 0, "inconclusive": 0}
+            jobs, stats = compz.plan("c", tier, seed, work, VARIANTS, n, PROFILES, directed=DIRECTED)
+        counts = {"ok": 0, "violation": 0, "inconclusive": 0, "unclassified": 0}
         per_variant = {}
         with concurrent.futures.ThreadPoolExecutor(max_workers=vcommon.NPROC) as ex:
             futs = {ex.submit(compz.retry_lowercased, j, work, lambda jj: run_job(jj, work, (clang, wasm_ld), support_o)): j for j in jobs}
@@ -175,6 +184,9 @@ def run(tier, seed, replay):
                     rep.add_eval(key)
                     if len(rep.samples) < 6:
                         rep.samples.append({"job": j["id"], "args": j["args"], "world": r["world"], "import_funcs": r["imports"], "export_funcs": r["exports"]})
+                elif r["status"] == "unclassified":
+                    rep.add_eval(vcommon.stable_hash([compz.read_wit(j["wit"]), j["variant"]]))
+                    compz.unclassified(rep, j, r["stage"], r["what"], r.get("detail", ""))
                 elif r["status"] == "violation":
                     tally = rep.extra.setdefault("violation_tally", {})
                     k = "%s | %s" % (r["sig"], compz.normalise(r["what"].split(": ", 1)[-1]))
@@ -207,7 +219,7 @@ def dbg_ctx(work):
 
 
 def dbg_plan(tier, seed, work):
-    return compz.plan("c", tier, seed, work, VARIANTS, 48 if tier == "quick" else 2000, PROFILES)
+    return compz.plan("c", tier, seed, work, VARIANTS, 48 if tier == "quick" else 2000, PROFILES, directed=DIRECTED)
 
 
 def dbg_run(job, work, ctx):
